@@ -9,6 +9,17 @@ fn usage() -> ! {
 }
 
 fn main() {
+    // everything runs on a big-stack thread: generators, oracles and the repo's passes recurse
+    let code = std::thread::Builder::new()
+        .stack_size(engine::BIG_STACK)
+        .spawn(real_main)
+        .unwrap()
+        .join()
+        .unwrap_or(2);
+    std::process::exit(code);
+}
+
+fn real_main() -> i32 {
     let args: Vec<String> = std::env::args().collect();
     if args.len() < 2 {
         usage();
@@ -18,7 +29,102 @@ fn main() {
         for p in &registry {
             println!("{}", p.id);
         }
-        return;
+        return 0;
+    }
+    if args[1] == "gen" {
+        // zyverif gen <seed> <count> [show]: generate core programs, run reference and interpreter
+        use zyverif::core::{generate::Cfg, harness as h};
+        use zyverif::drive::*;
+        let seed: u64 = args[2].parse().unwrap();
+        let count: u64 = args[3].parse().unwrap();
+        let show = args.get(4).is_some();
+        let dir = std::env::temp_dir().join(format!("zygen-{}", std::process::id()));
+        std::fs::create_dir_all(&dir).unwrap();
+        let repo = std::path::PathBuf::from("/repo");
+        let mut tally: std::collections::BTreeMap<String, u32> = Default::default();
+        for i in 0..count {
+            let mut tape = vec![0u8; 400];
+            let mut x = engine::mix(seed, i);
+            for b in tape.iter_mut() {
+                x = engine::mix(x, 1);
+                *b = (x >> 24) as u8;
+            }
+            let trace = std::env::var_os("VERIF_TRACE").is_some();
+            if trace { eprintln!("case {i}: generate"); }
+            let g = h::generate(&tape, &Cfg::quick());
+            if trace { eprintln!("case {i}: print"); }
+            let text = h::default_print(&repo, &g.prog);
+            if trace { eprintln!("case {i}: analyze ({} bytes)", text.len()); }
+            let (_session, a) = h::write_and_analyze(&dir, &text);
+            if trace { eprintln!("case {i}: run"); }
+            let body = &text[text.find("begin\n").unwrap_or(0)..];
+            let verdict = match a {
+                | Analyzed::Executable(exe, _) => {
+                    let r = h::reference_run(&g.prog, &g.stdin, 200_000);
+                    let ir = h::interp_run(exe, &g.stdin, 2_000_000);
+                    let same = h::ends_agree(&r.end, &ir.end) && r.stdout == ir.stdout;
+                    if show || !same {
+                        println!("---- case {i} ----\n{body}");
+                        println!("stdin {:?}", String::from_utf8_lossy(&g.stdin));
+                        println!("ref   : {:?} {:?}", r.end, String::from_utf8_lossy(&r.stdout));
+                        println!("interp: {:?} {:?}", ir.end, String::from_utf8_lossy(&ir.stdout));
+                    }
+                    if same { format!("agree:{:?}", std::mem::discriminant(&r.end)) } else { "DISAGREE".into() }
+                }
+                | Analyzed::AcceptedOther(_, why) => format!("accepted-other: {why}"),
+                | Analyzed::NotAccepted(front) => {
+                    println!("---- case {i} REJECTED ----\n{body}");
+                    for k in front.kinds.iter().take(3) {
+                        println!("  - {k}");
+                    }
+                    if front.kinds.is_empty() {
+                        println!("{}", strip_ansi(&front.rendered).lines().take(3).collect::<Vec<_>>().join("\n"));
+                    }
+                    "rejected".into()
+                }
+                | Analyzed::Panic(p) => {
+                    println!("---- case {i} PANIC {} ----\n{body}", p.describe());
+                    "panic".into()
+                }
+            };
+            *tally.entry(verdict).or_insert(0) += 1;
+        }
+        println!("{tally:?}");
+        let _ = std::fs::remove_dir_all(&dir);
+        return 0;
+    }
+    if args[1] == "probe" {
+        // zyverif probe <file> [stdin-text]: verdict, diagnostic kinds, run result (development aid)
+        use zyverif::drive::*;
+        let path = std::path::PathBuf::from(&args[2]).canonicalize().expect("file");
+        let session = zydeco_session::CompilerSession::default();
+        match analyze_executable(&session, &path) {
+            | Analyzed::Executable(exe, front) => {
+                println!("verdict: {:?} (executable)", front.verdict);
+                let stdin = args.get(3).cloned().unwrap_or_default();
+                let r = run_executable(exe, stdin.as_bytes(), &[], 2_000_000);
+                println!("stdout: {:?}", String::from_utf8_lossy(&r.stdout));
+                println!("end: {:?} after {} steps", r.end, r.steps);
+            }
+            | Analyzed::AcceptedOther(front, why) => println!("verdict: {:?}; not executable: {why}", front.verdict),
+            | Analyzed::NotAccepted(front) => {
+                println!("verdict: {:?}", front.verdict);
+                for (k, s) in front.kinds.iter().zip(front.spans.iter().map(Some).chain(std::iter::repeat(None))) {
+                    let loc = s.map(|(p, r)| {
+                        let text = std::fs::read_to_string(p).unwrap_or_default();
+                        let line = text[..r.start.min(text.len())].matches('\n').count() + 1;
+                        let snippet: String = text.get(r.clone()).unwrap_or("").chars().take(80).collect();
+                        format!("{}:{} `{}`", p.file_name().unwrap().to_string_lossy(), line, snippet.replace('\n', " "))
+                    });
+                    println!("  - {k}   @ {}", loc.unwrap_or_default());
+                }
+                if front.kinds.is_empty() {
+                    println!("{}", strip_ansi(&front.rendered).lines().take(6).collect::<Vec<_>>().join("\n"));
+                }
+            }
+            | Analyzed::Panic(p) => println!("PANIC {}", p.describe()),
+        }
+        return 0;
     }
     if args.len() < 4 {
         usage();
